@@ -303,7 +303,36 @@ def run(ctx, use_model=True):
             fails.extend(corr_failures(ctx, worlds, use_model=use_model))
             worlds = []
     fails.extend(corr_failures(ctx, worlds, use_model=use_model))
+    if use_model:
+        fails.extend(corpus_channel(ctx, g))
     return fails
+
+
+def corpus_channel(ctx, g):
+    """reader channel on PROV-O written by other tools: the repository's RDF test corpus (ProvToolbox output), each file through the real
+    decode_document and the model's in rdflib's iteration order; outcome (document content or error class) must agree"""
+    import glob
+    import os
+    import prov
+    files = sorted(glob.glob(os.path.join(os.path.dirname(prov.__file__), "tests", "rdf", "*.t*")))
+    if ctx.tier != "thorough":
+        files = g.rng.sample(files, min(40, len(files)))
+    worlds = []
+    for f in files:
+        w = World()
+        try:
+            h, err = w.dec_rdf(text=open(f, encoding="utf-8").read(), rdf_format="trig" if f.endswith(".trig") else "turtle")
+        except Exception:  # noqa  rdflib could not parse the file
+            ctx.count("corpus-unparsable")
+            continue
+        if h is not None:
+            w.obs(h)
+        ctx.count("corpus:" + ("read" if err is None else "refused"))
+        worlds.append(w)
+    out = []
+    for i in range(0, len(worlds), 50):
+        out.extend(corr_failures(ctx, worlds[i:i + 50]))
+    return out
 
 
 def oracle_only(ctx):
